@@ -75,7 +75,9 @@ def cell_type_guard(F, S):
     site = final_site_facts(eng, fn, st[0]["id"]) or set()
     v = P(fn, 0)
     upper = prove_le(site, v, ("const", hi))
-    lower = (not en.get("is")) or prove_le(site, ("const", lo), v)
+    # (an explicit fact is required for the lower end: the entailment engine treats atoms as non-negative quantities)
+    lower = (not en.get("is")) or any((f[0] == "<=" and f[1][0] == "const" and f[1][1] >= lo and f[2] == v) or
+                                      (f[0] == "<" and f[1][0] == "const" and f[1][1] >= lo - 1 and f[2] == v) for f in site)
     inst = M + "::SetCellType#range"
     req = "values outside %d..%d are refused before the store (both ends: the enum's underlying type decides whether negative values exist)" % (lo, hi)
     if upper and lower:
